@@ -13,7 +13,8 @@ from common import *
 from fexpr import render, has_notin_or, NOTIN_KEY
 
 POOL = ["a", "ab", "b", "ba", "c"]
-NAMES = ["a", "b", "s", "st['p']", "st['q']"]
+NAMES = ["a", "b", "s", "st['p']", "st['q']", "(st IS NULL)", "st['in']['u']", "st['in']['w']", "ls[1]['p']", "ls[1]['q']", "t", "m"]
+LITFMT = {11: lambda v: f"to_timestamp_seconds({v['v']})"}
 
 
 def known_key(v):
@@ -33,22 +34,23 @@ def run(ctx):
         write_evidence(ctx, "exploration", {"evaluations": max(1, res["evaluations"]), "distinct_nontrivial": 2, "rule": "replay of one recorded case",
                                             "samples": res["samples"] or [{"replay": ctx.replay}]})
         return
-    rounds = 4 if ctx.quick else 14
-    ncase, npred = (6, 4) if ctx.quick else (10, 8)
+    rounds = 4 if ctx.quick else 8
+    ncase = 24 if ctx.quick else 120
     cases, states = [], 0
     for r in range(rounds):
         n = [4, 6, 3, 8][r % 4]
         av = sorted(ctx.rng.sample([1, 2, 3, 5, 100, 127], 3))
         svs = sorted(ctx.rng.sample(range(1, len(POOL) + 1), 3))
         cfg = ctx.path(f"sa{r}.cfg")
-        open(cfg, "w").write(f"CONSTANTS N = {n}  AV = {{{', '.join(map(str, av))}}}  SVs = {{{', '.join(map(str, svs))}}}  NCase = {ncase}  NPred = {npred}\n"
+        open(cfg, "w").write(f"CONSTANTS N = {n}  AV = {{{', '.join(map(str, av))}}}  SVs = {{{', '.join(map(str, svs))}}}  NCase = {ncase}\n"
                              "SPECIFICATION Spec\nINVARIANTS Emit\n")
         t = tlc_must_pass(ctx, "files/SchemaAdapt", cfg=cfg, workers=1, tag=f"sa{r}", mode_args=["-seed", str(ctx.seed * 1000 + r)], timeout=1800)
         states += t.distinct
         got = tlc_cases(t.out)
         for j, c in enumerate(got):
             c["pool"] = POOL
-            c["sql"] = render(c["filter"], NAMES, POOL)
+            c["sql"] = render(c["filter"], NAMES, POOL, LITFMT)
+            c["tview"] = (j % 3 == 2)
             c["rg"] = ctx.rng.choice([2, 3, 100])
             rnd = {s: ctx.rng.random() < 0.5 for s in ["reorder_filters", "enable_page_index", "pruning", "schema_force_view_types"]}
             c["configs"] = [dict(rnd, pushdown_filters=False, tp=1), dict(rnd, pushdown_filters=True, tp=ctx.rng.choice([1, 2])),
@@ -64,6 +66,24 @@ def run(ctx):
         raise ToolError("harness machinery errors: " + "; ".join(res["tool_errors"][:3]))
     for v in res["violations"]:
         report_violation(ctx, v, key=known_key(v))
+    cnt = res["counters"]
+    must = [f"variant_{k}_{v}" for k, vs in dict(ta=["i8", "i32", "i64"], tb=["i8", "i32", "i64"], ts=["utf8", "large", "dict"], stv=["pq", "qp", "p", "q", "pqr"],
+                                                 inv=["none", "uw", "wu", "u", "uwz"], tt=["s", "ms", "us", "ns", "ms_utc"], tm=["5_1", "7_2", "10_2"]).items() for v in vs]
+    must += [f"variant_without_{k}" for k in ["ha", "hb", "hs", "hst", "hls", "ht", "hm"]] + ["files_with_null_struct_rows", "table_with_utf8view"]
+    never = [m for m in must if cnt.get(m, 0) == 0]
+    colmap = {1: "ha", 2: "hb", 3: "hs", 4: "hst", 5: "hst", 6: "hst", 7: "hst", 8: "hst", 9: "hls", 10: "hls", 11: "ht", 12: "hm"}
+    def cols_of(x):
+        if not isinstance(x, dict):
+            return set()
+        r = {x["i"]} if x.get("op") == "col" else set()
+        for k in ("l", "r", "e"):
+            r |= cols_of(x.get(k))
+        return r
+    missing_filter = sum(1 for c in cases if any(not f["v"][colmap[i]] for f in c["files"] for i in cols_of(c["filter"])))
+    if missing_filter == 0:
+        never.append("filter on a column missing from a file")
+    if never:
+        raise ToolError(f"vacuity: schema variants never exercised in this run: {never}")
     variants = {json.dumps(f["v"], sort_keys=True) for c in cases for f in c["files"]}
     write_evidence(ctx, "exploration", {
         "evaluations": res["evaluations"],
@@ -72,9 +92,10 @@ def run(ctx):
         "samples": res["samples"][:2],
         "tlc_states": states, "cases_from_tlc": len(cases), "distinct_file_schema_variants": len(variants),
         "cases_with_missing_column": sum(1 for c in cases if any(not (f["v"]["ha"] and f["v"]["hb"] and f["v"]["hs"] and f["v"]["hst"]) for f in c["files"])),
+        "cases_filtering_on_a_column_missing_from_a_file": missing_filter,
         "counters": res["counters"],
     }, assumptions=[
-        "castable lattice: Int8 < Int32 < Int64 (values fit every width), Utf8 ~ LargeUtf8 (~ Utf8View on read); struct with reordered / missing / extra fields",
-        "struct columns are compared field by field (st['p'], st['q']); whether a struct is NULL or a struct of NULLs is not distinguished",
+        "castable lattice: Int8 < Int32 < Int64 (values fit every width), Utf8 ~ LargeUtf8 ~ Dictionary(Int32,Utf8) (~ Utf8View table column), Timestamp s/ms/us/ns/ms+UTC -> us, Decimal(5,1)/(7,2) -> (10,2); struct with reordered / missing / extra fields and a nested struct field (two levels); List<Struct>",
+        "struct columns are compared field by field plus `st IS NULL` (NULL struct vs struct of NULLs is distinguished); list-of-struct has one element per row; CSV/JSON files are not generated (their readers, not the adapter, fill missing columns)",
         "Parquet files in an in-memory object store, read through ListingTable with an explicit schema",
     ])
